@@ -16,7 +16,7 @@ use std::sync::Arc;
 pub const COUNTERS: &[&str] = &[
     "menu_histories", "menu_operations", "menu_claimable_states", "menu_claims_executed", "menu_illegal_menu_moves_refused",
     "filler_histories", "filler_plies", "filler_boundary_claims_executed", "filler_claimable_plies", "filler_deviations_pawn", "filler_deviations_capture",
-    "filler_deviations_rook_loses_right", "filler_deviations_king_loses_rights", "filler_deviations_castle", "filler_deviations_offer", "filler_event_slots_unavailable", "t3_tolerated",
+    "filler_deviations_rook_loses_right", "filler_deviations_king_loses_rights", "filler_deviations_castle", "filler_deviations_offer", "filler_deviations_pawn_capture", "filler_deviations_promotion", "filler_long_histories", "filler_event_slots_unavailable", "t3_tolerated",
 ];
 
 struct MenuRoot {
@@ -153,8 +153,12 @@ enum Event {
     Castle,
     /// a non-move action in the log: an (unaccepted) draw offer; position and clock unchanged
     Offer,
+    /// a capture made by a pawn (incl. en passant when available)
+    PawnCapture,
+    /// a promotion (push or capture)
+    Promotion,
 }
-const EVENTS: [Event; 6] = [Event::PawnMove, Event::Capture, Event::RookLosesRight, Event::KingLosesRights, Event::Castle, Event::Offer];
+const EVENTS: [Event; 8] = [Event::PawnMove, Event::Capture, Event::RookLosesRight, Event::KingLosesRights, Event::Castle, Event::Offer, Event::PawnCapture, Event::Promotion];
 
 fn event_move(p: &RefPos, e: Event) -> Option<RMove> {
     let ms = p.legal_moves();
@@ -162,7 +166,9 @@ fn event_move(p: &RefPos, e: Event) -> Option<RMove> {
         let k = p.at(m.from).map(|x| x.0);
         let rights_change = p.apply(*m).castle != p.castle;
         match e {
-            Event::PawnMove => k == Some(Kind::P) && !p.is_capture(*m),
+            Event::PawnMove => k == Some(Kind::P) && !p.is_capture(*m) && m.promo.is_none(),
+            Event::PawnCapture => k == Some(Kind::P) && p.is_capture(*m) && m.promo.is_none(),
+            Event::Promotion => m.promo.is_some(),
             Event::Capture => p.is_capture(*m) && k != Some(Kind::P),
             Event::RookLosesRight => k == Some(Kind::R) && rights_change && !p.is_capture(*m),
             Event::KingLosesRights => k == Some(Kind::K) && rights_change && !p.is_castle(*m) && !p.is_capture(*m),
@@ -220,6 +226,7 @@ const FILLER_ROOTS: &[&str] = &[
     "r1n1k2r/p2p4/8/8/8/8/P2P4/R1N1K2R w KQkq - 0 1",
     "1n2k3/8/8/8/8/8/8/RN2K3 w Q - 0 1",
     "r3k1nr/7p/8/3b4/3B4/8/7P/R3K1NR b KQkq - 0 1",
+    "1n2k3/P2p3p/8/8/8/8/p2P3P/1N2K3 w - - 0 1",
 ];
 
 fn run_history(run: &Run, start: &RefPos, hist: &[GOp], devs: &[(usize, Event)]) {
@@ -287,7 +294,7 @@ fn run_history(run: &Run, start: &RefPos, hist: &[GOp], devs: &[(usize, Event)])
     }
 }
 
-pub const RULE: &str = "Regime A (repetition): 8 roots, each with a fixed menu of 7-10 moves (knight and king shuffles; rooks/kings leaving and re-entering home squares so that placement repeats with different rights; a double push whose en-passant right exists only on the first occurrence; triangulation; history-cutting captures and pawn moves); EVERY sequence over menu + declare_draw + (at most one) offer_draw to depth 9 (quick) / 11-12 (thorough); menu moves illegal in the current state are attempted and must be refused. Regime B (fifty-move boundary, deviation bounding): from 3 roots a deterministic self-avoiding filler of reversible, rights-preserving moves (depth-first, first in sorted order) is the default behaviour; deviations are events spliced in at ply i (quiet pawn move, capture, rook move losing a right, king move losing both, castling, an unaccepted draw offer = a non-move entry in the action log), every i in 0..=104 x every event kind with 1 deviation (quick) and every pair with 2 deviations (thorough); can_declare_draw() is compared after EVERY ply and at clock 95..=104 declare_draw() is also executed on a clone. Oracle: FIDE 9.2/9.3 on the reference game (no result, and clock >= 100 or current position occurred >= 3 times; identity = placement, side, rights, en-passant possibility; histories whose verdict differs between 'a legal en-passant capture exists' and 'an enemy pawn stands beside' are not judged, T3). states = histories, transitions = operations. distinct_nontrivial = histories/plies at which a claim is due";
+pub const RULE: &str = "Regime A (repetition): 8 roots, each with a fixed menu of 7-10 moves (knight and king shuffles; rooks/kings leaving and re-entering home squares so that placement repeats with different rights; a double push whose en-passant right exists only on the first occurrence; triangulation; history-cutting captures and pawn moves); EVERY sequence over menu + declare_draw + (at most one) offer_draw to depth 9 (quick) / 11-12 (thorough); menu moves illegal in the current state are attempted and must be refused. Regime B (fifty-move boundary, deviation bounding): from 4 roots a deterministic self-avoiding filler of reversible, rights-preserving moves (depth-first, first in sorted order) is the default behaviour; deviations are events spliced in at ply i (quiet pawn move, capture, rook move losing a right, king move losing both, castling, an unaccepted draw offer = a non-move entry in the action log, a capture by a pawn, a promotion); plus one undisturbed history of 280 (thorough 420) plies per root, every i in 0..=104 x every event kind with 1 deviation (quick) and every pair with 2 deviations (thorough); can_declare_draw() is compared after EVERY ply and at clock 95..=104 declare_draw() is also executed on a clone. Oracle: FIDE 9.2/9.3 on the reference game (no result, and clock >= 100 or current position occurred >= 3 times; identity = placement, side, rights, en-passant possibility; histories whose verdict differs between 'a legal en-passant capture exists' and 'an enemy pawn stands beside' are not judged, T3). states = histories, transitions = operations. distinct_nontrivial = histories/plies at which a claim is due";
 
 pub fn run(tier: Tier) -> i32 {
     let run = Arc::new(Run::new("C11", tier, COUNTERS));
@@ -325,9 +332,11 @@ pub fn run(tier: Tier) -> i32 {
     // ---- regime B
     let horizon = 106usize;
     let mut hist_jobs: Vec<(RefPos, Vec<(usize, Event)>)> = vec![];
+    let mut long_jobs: Vec<RefPos> = vec![];
     for f in FILLER_ROOTS {
         let start = RefPos::from_fen(f).expect("machinery: filler root");
         hist_jobs.push((start, vec![]));
+        long_jobs.push(start);
         for i in 0..=104usize {
             for e in EVENTS {
                 hist_jobs.push((start, vec![(i, e)]));
@@ -364,12 +373,24 @@ pub fn run(tier: Tier) -> i32 {
                             Event::KingLosesRights => "filler_deviations_king_loses_rights",
                             Event::Castle => "filler_deviations_castle",
                             Event::Offer => "filler_deviations_offer",
+                            Event::PawnCapture => "filler_deviations_pawn_capture",
+                            Event::Promotion => "filler_deviations_promotion",
                         },
                         1,
                     );
                 }
                 run_history(&run, start, &h, devs);
             }
+        }
+    });
+    // one long undisturbed history per root (claimable from ply 100 on, far beyond 255 entries)
+    long_jobs.par_iter().for_each(|start| {
+        if run.has_violation() {
+            return;
+        }
+        if let Some(h) = build_history(start, &[], tier.pick(280, 420)) {
+            run.add("filler_long_histories", 1);
+            run_history(&run, start, &h, &[]);
         }
     });
     if run.over_budget() {
